@@ -205,6 +205,14 @@ def oracle(ctx, it, res, fields, heads):
                 out.append((f'table:{key}:units', f'{key}: hard-coded column units differ from the printed unit line', units, hu))
     # the carbon view repeats four columns of the revenue table
     cv, rv = result.get('CARBON REVENUE PROFILE'), R.expected_table(text, R.REV)
+    if rv is not None and rv[1] and len(heads['carbon']) > 1 and heads['carbon'][1] in heads['revenue'] \
+            and R.expected_table(text, 'CCUS PROFILE') is None and all(len(r) == len(heads['revenue']) for r in rv[1]):
+        cpi = heads['revenue'].index(heads['carbon'][1])
+        priced = any(r[cpi] != 0 for r in rv[1])
+        if priced != (cv is not None):
+            out.append(('table:CARBON REVENUE PROFILE:' + ('missing' if priced else 'foreign'),
+                        'the carbon revenue view must exist exactly when the revenue table prints a non-zero carbon price',
+                        'a view' if priced else 'no view', None if cv is None else cv[:2]))
     if cv is not None and rv is not None:
         idx = [heads['revenue'].index(h) for h in cv[0] if h in heads['revenue']]
         want = [[r[i] for i in idx] for r in rv[1] if len(r) == len(heads['revenue'])]
